@@ -278,3 +278,29 @@ Fixpoint chain_state (fs : list N) (s : dir) (ops : list op) (chain : list (nat 
       | _ => chain_state fs s' (resume_ops s' fs) rest
       end
   end.
+
+(* ------------------------------------------------------------------ the proxy (proxy/search/async.go) *)
+(* Ingestor.FetchAsyncSearchResult: per shard the replicas are asked in order; one that does not know
+   the request (NotFound) is skipped, the first answer counts; a shard none of whose replicas knows the
+   request is left out. Done = every answering shard is done; the answers are merged in one MergeQPRs
+   with the fetch request's size. No answering shard at all = NotFound. *)
+Inductive replica := RNotFound | RAnswer (done : bool) (q : qpr).
+Fixpoint shard_answer (s : list replica) : option (bool * qpr) :=
+  match s with
+  | [] => None
+  | RNotFound :: r => shard_answer r
+  | RAnswer d q :: _ => Some (d, q)
+  end.
+Definition answers (shards : list (list replica)) : list (bool * qpr) :=
+  flat_map (fun s => match shard_answer s with Some a => [a] | None => [] end) shards.
+Definition proxy_fetch (naggs : nat) (size hi : N) (rev : bool) (shards : list (list replica)) : option (bool * qpr) :=
+  match answers shards with
+  | [] => None
+  | a => Some (forallb fst a, sync_search naggs size hi rev (map snd a))
+  end.
+(* the same function with the done flag of the last answering shard (a regression seen in review) *)
+Definition proxy_fetch_last (naggs : nat) (size hi : N) (rev : bool) (shards : list (list replica)) : option (bool * qpr) :=
+  match answers shards with
+  | [] => None
+  | a => Some (fst (last a (true, qpr_zero)), sync_search naggs size hi rev (map snd a))
+  end.
